@@ -27,8 +27,6 @@ import ZODB.interfaces
 import ZODB.POSException
 import ZODB.TimeStamp
 import ZODB.utils
-from ZODB._compat import _protocol
-from ZODB._compat import dumps
 
 
 @zope.interface.implementer(
@@ -363,12 +361,6 @@ class TransactionRecord:
     _extension = property(lambda self: self.extension,
                           lambda self, v: setattr(self, 'extension', v),
                           )
-
-    # IStorageTransactionMetaData: what a storage that copies or restores
-    # this transaction (copyTransactionsFrom) asks for.
-    @property
-    def extension_bytes(self):
-        return dumps(self.extension, _protocol) if self.extension else b''
 
     def __iter__(self):
         for oid, data in self.data.items():
